@@ -216,6 +216,59 @@ class PortClose(Contract):
         return out
 
 
+# ====================================================================== reset / panic
+_RESET = {
+    'reset': Harness('''
+        def do(p):
+            p.reset()
+    '''),
+    'panic': Harness('''
+        def do(p):
+            p.panic()
+    '''),
+}
+
+
+@contract
+class PortResetPanic(Contract):
+    """reset() / panic() on an open port hand the device exactly the documented control changes, in order, once, each
+    value 0 - whichever way the port class implements output (_send() or the public send() overridden) - and do
+    nothing on a closed port"""
+    key = 'C11.reset-panic'
+    target = P + 'BaseOutput.reset'
+    properties = ('C11',)
+    configs = tuple({'what': w, 'closed': c, 'dev': d} for w in ('reset', 'panic') for c in (False, True) for d in ('_send', 'send'))
+    raises = {}
+    symbolic_only = True
+
+    def callee(self, h, cfg):
+        return _RESET[cfg['what']].get(h)
+
+    def hooks(self, cfg):
+        hk = device_hooks()
+        return send_overriding_hooks(hk) if cfg['dev'] == 'send' else hk
+
+    def inputs(self, h, cfg):
+        cls = send_overriding_port_class() if cfg['dev'] == 'send' else 'BaseIOPort'
+        return [port(h, cls, closed=cfg['closed'], autoreset=False)], {}
+
+    def ensures(self, h, cfg, a, r):
+        sends = log_of(h, '_send')
+        if cfg['closed']:
+            want = []
+        elif cfg['what'] == 'reset':
+            want = [(ch, ctl, 0) for (ch, ctl) in reset_sequence()]
+        else:
+            want = [(ch, 120, 0) for ch in range(16)]
+        got = []
+        for e in sends:
+            m = attrs_of(e[2])
+            got.append((V(m.get('channel')), V(m.get('control')), V(m.get('value'))) if m.get('type') == 'control_change' else ('?', '?', '?'))
+        return {'device-receives-exactly-the-documented-messages-in-order': got == want,
+                'port-stays-as-it-was': attrs_of(h.port)['closed'] is cfg['closed'],
+                'device-not-released': len(log_of(h, '_close')) == 0}
+
+
 # ====================================================================== send
 _SEND = Harness('''
     def do(p, msg):
